@@ -221,8 +221,14 @@ class Engine:
                     # a gap of more than 2**20 samples (over a minute at
                     # 16 kHz): beyond any plausible internal buffer size
                     o["silence_samples"] = (1 << 20) + 7
+                if prop != "C13":
+                    # how a fractional gap is rounded is C13's statement:
+                    # under C12 / C14 the files only witness delivery
+                    o["silence_samples"] = int(round(o["silence_samples"]))
             if kind == "region":
                 o["tmpl"] = T.draw(4)
+                if prop != "C13":
+                    o["tmpl"] = 0   # name formatting is C13's statement
             obs.append(o)
         sc = {"prop": prop, "fmt": [sw, ch, sr, bsz], "n": n, "extra": extra,
               "block_dur": bd, "params": params, "max_read": max_read,
@@ -331,7 +337,7 @@ class Engine:
         scfg["fair_after"] = 20000 + 50 * nblocks
         scfg["budget"] = 20000 + 100 * nblocks * (len(sc["observers"]) + 2)
         sim = sched.Sim(S, scfg)
-        tmp = C.scratch_dir()
+        tmp = C.scratch_dir(collect=True)
         seams.reset_captures(tmp)
         res = {}
         stall = sources.StallPlan(tuple(scfg["stall"]), scfg["stall_durs"])
@@ -462,6 +468,15 @@ class Engine:
             d0 = d0[:len(d0) - len(d0) % (sw * ch)]
             src0 = sources.SimAudioSource(d0, sr, sw, ch, label="src0")
             rd0 = AudioReader(src0, block_dur=bd)
+            prod0 = res["other_prod"] = []
+            rd0_read = rd0.read
+
+            def rec_rd0_read():
+                b = rd0_read()
+                if b is not None:
+                    prod0.append(b)
+                return b
+            rd0.read = rec_rd0_read
             sv0 = W.StreamSaverWorker(rd0, os.path.join(tmp, "other.wav"),
                                       cache_size_sec=3 * bsz / sr)
             sv0.start()
@@ -484,7 +499,11 @@ class Engine:
             ob0.join()
             sv0.join()
             sv0.export_audio()
-            res["other_served"] = src0.served_bytes()
+            # what that pipeline's reader produced (falls back to what its
+            # source served when the reader is not called through read())
+            res["other_served"] = (b"".join(res["other_prod"])
+                                   if res.get("other_prod")
+                                   else src0.served_bytes())
 
         def main():
             if sc.get("prior_session"):
@@ -497,6 +516,18 @@ class Engine:
                 rkw["max_read"] = sc["max_read"]
             reader = AudioReader(src, block_dur=bd, **rkw)
             res["src"] = src
+            # "the blocks that were read" are the blocks the READER produced
+            # (how the reader pulls from the raw source - read-ahead, a
+            # limiter that truncates - is its own business): recorded here
+            rprod = res["rprod"] = []
+            reader_read = reader.read
+
+            def rec_reader_read():
+                b = reader_read()
+                if b is not None:
+                    rprod.append((b, sim.seq))
+                return b
+            reader.read = rec_reader_read
             observers = build_observers()
             res["obs"] = observers
             saver = None
@@ -684,6 +715,9 @@ class Engine:
             raise RuntimeError("main did not complete but no failure")
         src = res["src"]
         served = src.served_bytes()
+        rprod = res.get("rprod") or [(c_, q_) for c_, q_ in
+                                     zip(src.served, src.served_seq)]
+        produced = b"".join(c_ for c_, _ in rprod)
         max_read = sc["max_read"]
         max_samples = None if max_read is None else round(max_read * sr)
         natural_end = src.exhausted or served == data or (
@@ -691,7 +725,7 @@ class Engine:
         if stop is None:
             base = data
         else:
-            base = served
+            base = produced
             tseen_l = res.get("tok_seen")
             if tseen_l:
                 # "the part of the stream read up to that moment": what the
@@ -699,16 +733,15 @@ class Engine:
                 # the stop arrived may or may not be part of it; everything
                 # read before the request must be.
                 recv = b"".join(b for b in tseen_l if b is not None)
-                if served[:len(recv)] != recv:
+                if produced[:len(recv)] != recv:
                     return V("C14.2", "the tokenizer received audio that is "
-                             "not a prefix of what the source served",
+                             "not a prefix of what the reader produced",
                              "C14.2:not_a_prefix")
-                before = sum(len(c) for c, q in zip(src.served,
-                                                    src.served_seq)
+                before = sum(len(c) for c, q in rprod
                              if q <= res.get("stop_seq", 0))
                 if len(recv) < before:
                     return V("C14.2", "%d bytes had been read from the "
-                             "source before the stop was requested, the "
+                             "reader before the stop was requested, the "
                              "tokenizer received only %d" % (before,
                                                              len(recv)),
                              "C14.2:lost_before_stop")
@@ -835,7 +868,7 @@ class Engine:
             if v is not None:
                 return v
             if saver is not None:
-                v = self._judge_saver(sc, res, served, saver, V, "C13.1")
+                v = self._judge_saver(sc, res, produced, saver, V, "C13.1")
                 if v is not None:
                     return v
 
@@ -892,7 +925,7 @@ class Engine:
                              "(the request was ignored or lost)" % (
                                  late, remaining), "C14.6:stop_ignored")
             if saver is not None:
-                v = self._judge_saver(sc, res, served, saver, V, "C14.4")
+                v = self._judge_saver(sc, res, produced, saver, V, "C14.4")
                 if v is not None:
                     return v
         return None
@@ -903,7 +936,7 @@ class Engine:
         seen = b"".join(b for b in res["seen"] if b is not None)
         if seen != served:
             return V(clause, "tokenizer saw %d bytes through the saver but "
-                     "the source served %d" % (len(seen), len(served)),
+                     "the reader produced %d" % (len(seen), len(served)),
                      clause + ":seen")
         try:
             d, hp = _read_either(fn, sc["saver"]["fmt"],
@@ -915,7 +948,7 @@ class Engine:
             return V(clause, "saved stream file unreadable: %r" % (e,),
                      clause + ":unreadable")
         if d != served:
-            return V(clause, "saved stream has %d bytes, source served %d; %s"
+            return V(clause, "saved stream has %d bytes, reader produced %d; %s"
                      % (len(d), len(served), _first_diff_bytes(d, served)),
                      clause + ":data")
         tseen = b"".join(b for b in res.get("tok_seen", []) if b is not None)
